@@ -258,6 +258,39 @@ def h_read_datafile_table(faults: bool):
     return harness
 
 
+def h_read_datafile_table_twice(h: H):
+    """STATELESS: a second verified read of the same file through the same Table, after the file's bytes changed, verifies the
+    bytes of ITS OWN read (no 'already verified' memory)."""
+    c = h.ctx
+    st = Store(h)
+    st.install(h.reg)
+    arrow_theory(h)
+    t = table_object(h, st)
+    df = data_file(h)
+    cs = df.fields["checksum"]
+    h.assume(z3.And(z3.Not(cs.isnone), z3.Length(cs.val.z) > 0))
+    opened, checks = [], []
+    open_source_contract(h, st, opened)
+    checksum_contract(h, checks)
+    args = [t, df, None, None, True, ModuleVal("pyarrow"), ModuleVal("pyarrow.parquet")]
+    out1, val1 = h.run(f"{TX}:Table._read_datafile_table", args)
+    if out1 != "ok":
+        return
+    n_checks, n_events = len(checks), len(st.events)
+    # the file is damaged (any other bytes) between the two reads
+    key = st.key(h.I, df.fields["file_path"])
+    st.ct = z3.Store(st.ct, key, c.fresh_str("damaged_content"))
+    out2, val2 = h.run(f"{TX}:Table._read_datafile_table", args)
+    reads2 = [e for e in st.events[n_events:] if e["op"] == "read_file" and e.get("ok")]
+    if out2 == "ok":
+        h.ensure("CHECKSUM:second-read-verifies-again", len(checks) == n_checks + 1 and len(reads2) == 1)
+        if len(checks) == n_checks + 1 and len(reads2) == 1:
+            h.ensure("CHECKSUM:second-read-returns-only-if-ITS-bytes-match", SHA(reads2[0]["content"]) == cs.val.z)
+            h.ensure("CHECKSUM:second-read-digest-computed-on-its-own-bytes", z3.eq(pyops.str_z(checks[-1][0]), reads2[0]["content"]))
+    else:
+        h.ensure("CHECKSUM:second-read-raises-only-corruption", val2.cls == "CorruptDataError")
+
+
 # =================================================================================== _scan_table / scan
 def h_scan_table(parallel: bool):
     def harness(h: H):
@@ -707,6 +740,7 @@ READ_UNITS = [
     ("ENGINE/iter_records", h_iter_records, [f"{TX}:Table.iter_records"]),
 ]
 FAULT_UNITS = [
+    ("CHECKSUM/_read_datafile_table-twice(stateless)", h_read_datafile_table_twice, [f"{TX}:Table._read_datafile_table"]),
     ("PROPAGATE/_read_datafile_table-faults", h_read_datafile_table(True), [f"{TX}:Table._read_datafile_table"]),
     ("PROPAGATE/_iter_file_batches-faults", h_iter_file_batches(True), [f"{TX}:Table._iter_file_batches"]),
     ("CHECKSUM/_resolve_verify_checksums", h_resolve_verify, [f"{TX}:Table._resolve_verify_checksums"]),
